@@ -1,6 +1,7 @@
 import JokerVerif.Drive.Common
 import JokerVerif.Model.Kernel
 import JokerVerif.Model.Units
+import JokerVerif.Lemmas.SlotLemmas
 /-! Driver handlers for C01 C03 C04 C07: the kernel evaluated exactly over `ℚ`
 (every IEEE double is a rational; inputs arrive as 64-bit patterns). -/
 open Lean Drive
@@ -109,7 +110,9 @@ def slotsOp : H := fun j => do
     { K := (K.getD 0 0, K.getD 1 0), v0 := (v0.getD 0 0, v0.getD 1 0),
       offsets := offM.toList.zip offV.toList, trend := trM.toList.zip trV.toList }
   let sl := Kernel.slots pr
-  return Json.mkObj [("mu", jRats (sl.map (·.1))), ("lam", jRats (sl.map (·.2)))]
+  let si := Kernel.slotsImp pr
+  return Json.mkObj [("mu", jRats (sl.map (·.1))), ("lam", jRats (sl.map (·.2))),
+                     ("muImp", jRats (si.map (·.1))), ("lamImp", jRats (si.map (·.2)))]
 
 /-- `Quantity.to_value`: value (double bits) in a unit of exact rational scale, converted to a target scale -/
 def unitsConvOp : H := fun j => do
